@@ -181,7 +181,11 @@ class CFStep(SubCheck):
                 rt = node
                 while rt.parent is not None:
                     rt = rt.parent
-                e.check(rt.value < node.value, "representation invariant broken by merge", lambda: dict(parent=parent, a=a, b=b, element=i))
+                if not (rt.value < node.value):
+                    # find() answered correctly above, but the forest no longer has the shape this step argument starts
+                    # from: the induction does not go through for this implementation (it may use another representation).
+                    # Not a violation of the property - the bounded histories of cf_hist are what judges it then.
+                    e.inconclusive("induction hypothesis (every root is the minimum of its tree) not re-established by merge: parent=%r a=%d b=%d element=%d" % (parent, a, b, i))
 
 
 SUBCHECKS = {c.name: c for c in [CFHist(), CFStep()]}
